@@ -204,9 +204,31 @@ impl<const N: usize> Exec<N> {
                 let sm = RefGraph::slice_model(m.cap, m.n, &verts);
                 let fam = self.view.next_family;
                 self.view.next_family += 1;
-                self.new_inst(dst, sl, sm, crate::view::Origin::Fresh, fam)?;
+                self.new_inst(dst, sl, sm.clone(), crate::view::Origin::Fresh, fam)?;
                 self.refresh_hints(dst);
                 self.stats.bump("probe.slice_kept");
+                // C10: a clone answers slice() as the original does — and keeps doing so. When the
+                // source has a clone twin, the twin is sliced too, under a hash seed of its own (as two
+                // calls in production would be), and the two slices go on in lockstep.
+                let twin = self.view.followers(src).into_iter().find(|(_, k)| *k == crate::view::LinkKind::Clone);
+                if let (Some((f, _)), Some(dst2)) = (twin, self.view.free_slot()) {
+                    sodg::verif::collections::set_hash_seed(seeds[0] ^ 0x5851_F42D_4C95_7F2D ^ self.view.cfg.hash_xor);
+                    let gf = self.gs[f].as_ref().unwrap();
+                    let r2 = guarded(|| gf.slice_some(v, |a, b, l| pred_accepts(pred, a, b, &PLabel::from_label(&l))));
+                    if let Ok(Ok(sl2)) = r2 {
+                        self.new_inst(dst2, sl2, sm, crate::view::Origin::Fresh, fam)?;
+                        let (a, b) = (self.deep(dst)?, self.deep(dst2)?);
+                        if let Some(d) = a.diff(&b) {
+                            return fail(
+                                "clone.answer-differs",
+                                clauses::C10,
+                                format!("slice(ν{v}) of instance {src} vs slice(ν{v}) of its clone twin {f}: {d}"),
+                            );
+                        }
+                        self.view.insts[dst2].as_mut().unwrap().leader = Some((dst, crate::view::LinkKind::Clone));
+                        self.stats.bump("probe.slice_of_clone_twin_kept");
+                    }
+                }
                 self.check_untouched(&[dst])?;
                 self.hash_step(s, "kept");
                 return Ok(Applied::Done);
@@ -424,9 +446,11 @@ impl<const N: usize> Exec<N> {
         for vo in &obs.verts {
             let has = m.present[&vo.v].data.is_some();
             if vo.vprint.contains('Δ') != has {
+                // a datum that appears from a re-added vertex of h is also add()'s blank-slate clause
+                let from_readded = mapping.iter().any(|(hv, gv)| *gv == vo.v && hm.collected_ever.contains(hv));
                 return fail(
                     "merge.data-presence",
-                    clauses::C11,
+                    if from_readded { &["C11", "C04"] } else { clauses::C11 },
                     format!("after merge v_print(ν{}) = {}, expected data: {has}", vo.v, vo.vprint),
                 );
             }
@@ -594,6 +618,7 @@ impl<const N: usize> Exec<N> {
         cmds: &[SCmd],
         style: u8,
         var: usize,
+        name: &str,
         s: &Step,
     ) -> Result<Applied, Failure> {
         if !self.targetable(i) || self.view.insts[i].as_ref().unwrap().poisoned || self.view.insts[i].as_ref().unwrap().m.adoptive {
@@ -634,7 +659,7 @@ impl<const N: usize> Exec<N> {
             };
             let id_text = |sid: &SId, view: &crate::view::View| -> Option<String> {
                 Some(match sid {
-                    SId::X => "$x".to_string(),
+                    SId::X => format!("${}", if name.is_empty() { "x" } else { name }),
                     SId::P(id) => {
                         let v = view.resolve(*id)?;
                         if (style >> 2) % 2 == 0 {
@@ -909,8 +934,9 @@ impl<const N: usize> Exec<N> {
         if !self.targetable(i) {
             return Ok(Applied::Skipped);
         }
-        let cap = self.view.cfg.cap;
         let m = self.view.insts[i].as_ref().unwrap().m.clone();
+        // the capacity this instance was made with (instances may have capacities of their own)
+        let cap = if self.view.cfg.contract.is_some() { self.view.cfg.cap } else { m.cap };
         let poisoned_before = self.view.insts[i].as_ref().unwrap().poisoned;
         let l0 = PLabel::A(7_000).to_label();
         // (must_panic, closure)
